@@ -316,7 +316,9 @@ def render(v):
     if isinstance(v, Rep):
         return "".join(render(i) for i in v.items)
     if isinstance(v, TNode) and v.kind == "$Index":
-        return render(v.fields["list"]) + "@"
+        return "<item>"
+    if isinstance(v, TNode) and v.kind in ("$InsertAt", "$SetItem"):
+        return render(v.fields["value"])
     if isinstance(v, PList):
         return "".join(render(i) for i in v.items)
     return "{" + type(v).__name__ + "}"
@@ -616,7 +618,7 @@ def lambda_skeleton_rule(ctx):
                 pass
         if has_var is True and "*<arg>" not in txt.replace(" ", "") and "*<vararg" not in txt:
             bad = bad or "`*vararg` is not emitted"
-        if has_var is False and has_kwo is True and not re.search(r"(?<!\*)\*(?![\*<])", txt.replace(" ", "")):
+        if has_var is False and has_kwo is not False and "<arg>" in txt and not re.search(r"(?<!\*)\*(?![\*<])", txt.replace(" ", "")):
             bad = bad or "keyword-only parameters without *args need a bare `*`"
         if has_kw is True and "**<arg>" not in txt.replace(" ", ""):
             bad = bad or "`**kwarg` is not emitted"
